@@ -79,6 +79,11 @@ func execRun(bin string, s *spec.RunSpec, wallLimit time.Duration) *spec.RunResu
 	if err != nil {
 		res.Crash = crashSignature(stderr.String())
 		res.Info = map[string]string{"stderr": tail(stderr.String(), 6000), "exit": err.Error()}
+		if strings.HasPrefix(res.Crash, "HARNESS ") {
+			// the harness itself panicked: a harness problem (exit 2), never a verdict
+			res.Harness = append(res.Harness, res.Crash)
+			res.Crash = ""
+		}
 		return res
 	}
 	res.Harness = append(res.Harness, "process exited 0 without writing a result")
@@ -99,9 +104,26 @@ func crashSignature(stderr string) string {
 	for i, l := range lines {
 		if strings.HasPrefix(l, "panic: ") || strings.HasPrefix(l, "fatal error: ") {
 			sig := normalisePanic(l)
-			// first mieru frame
+			// frames of the panicking goroutine: up to the next blank line after "goroutine N [running"
+			started := false
 			for _, f := range lines[i:] {
+				if strings.HasPrefix(f, "goroutine ") {
+					if started {
+						break
+					}
+					started = true
+					continue
+				}
+				if !started {
+					continue
+				}
 				f = strings.TrimSpace(f)
+				if strings.HasPrefix(f, "verifsim/") {
+					if k := strings.LastIndex(f, "("); k > 0 {
+						f = f[:k]
+					}
+					return "HARNESS " + sig + " @ " + f
+				}
 				if strings.HasPrefix(f, "github.com/enfein/mieru/") {
 					if k := strings.LastIndex(f, "("); k > 0 {
 						f = f[:k]
